@@ -174,3 +174,92 @@ Definition hosts_ok (t : list (string * list string)) : bool :=
                     | None => false end) host_functions
   && match assoc_ss t "Phreeqc::basic_run" with Some ["basic_run"] => true | _ => false end
   && match assoc_ss t "Phreeqc::basic_compile" with Some ["basic_compile"] => true | _ => false end.
+
+(* ------------------------------------------------------------------ findvar: offset of an array element
+   The translator executes the subscript loop of PBasic::findvar symbolically for 1..4 dimensions (maxdims = 4) and
+   emits the offset as a polynomial in canonical form (monomials = sorted symbol lists, sorted), the bounds tests and
+   the commas required.  Obligation: they are the row-major polynomials below; [row_major_is_flat_index] shows that those
+   are what the model's [flat_index] computes, for all extents and all in-range subscripts. *)
+Definition poly := list (Z * list string).
+
+Definition expected_index (n : nat) : poly :=
+  match n with
+  | 1 => [(1%Z, ["j0"])]
+  | 2 => [(1%Z, ["d1"; "j0"]); (1%Z, ["j1"])]
+  | 3 => [(1%Z, ["d1"; "d2"; "j0"]); (1%Z, ["d2"; "j1"]); (1%Z, ["j2"])]
+  | 4 => [(1%Z, ["d1"; "d2"; "d3"; "j0"]); (1%Z, ["d2"; "d3"; "j1"]); (1%Z, ["d3"; "j2"]); (1%Z, ["j3"])]
+  | _ => []
+  end.
+
+Definition expected_bounds (n : nat) : list (string * string) :=
+  firstn n [("j0", "d0"); ("j1", "d1"); ("j2", "d2"); ("j3", "d3")].
+
+Definition expected_commas (n : nat) : list nat := seq 0 (n - 1).
+
+Fixpoint slist_eqb (a b : list string) : bool :=
+  match a, b with
+  | [], [] => true
+  | x :: a', y :: b' => String.eqb x y && slist_eqb a' b'
+  | _, _ => false
+  end.
+
+Fixpoint poly_eqb (p q : poly) : bool :=
+  match p, q with
+  | [], [] => true
+  | (c, m) :: p', (c', m') :: q' => Z.eqb c c' && slist_eqb m m' && poly_eqb p' q'
+  | _, _ => false
+  end.
+
+Fixpoint pairs_eqb (p q : list (string * string)) : bool :=
+  match p, q with
+  | [], [] => true
+  | (a, b) :: p', (a', b') :: q' => String.eqb a a' && String.eqb b b' && pairs_eqb p' q'
+  | _, _ => false
+  end.
+
+Fixpoint nats_eqb (p q : list nat) : bool :=
+  match p, q with
+  | [], [] => true
+  | a :: p', b :: q' => Nat.eqb a b && nats_eqb p' q'
+  | _, _ => false
+  end.
+
+Fixpoint assoc_n {A} (l : list (nat * A)) (k : nat) : option A :=
+  match l with [] => None | (k', v) :: r => if Nat.eqb k' k then Some v else assoc_n r k end.
+
+Definition findvar_ok (gi : list (nat * poly)) (gb : list (nat * list (string * string))) (gc : list (nat * list nat)) : bool :=
+  forallb (fun n =>
+    match assoc_n gi n, assoc_n gb n, assoc_n gc n with
+    | Some p, Some b, Some c => poly_eqb p (expected_index n) && pairs_eqb b (expected_bounds n) && nats_eqb c (expected_commas n)
+    | _, _, _ => false
+    end) [1; 2; 3; 4].
+
+Definition poly_eval (rho : string -> Z) (p : poly) : Z :=
+  fold_right (fun t acc => (fst t * fold_right (fun s a => rho s * a) 1 (snd t) + acc)%Z) 0%Z p.
+
+Lemma poly_eqb_eval : forall p q rho, poly_eqb p q = true -> poly_eval rho p = poly_eval rho q.
+Proof.
+  assert (S : forall a b, slist_eqb a b = true -> a = b).
+  { induction a as [|x a IH]; destruct b as [|y b]; simpl; intros H; try discriminate; auto.
+    apply andb_prop in H. destruct H as [H1 H2]. apply String.eqb_eq in H1. apply IH in H2. subst. reflexivity. }
+  induction p as [|[c m] p IH]; destruct q as [|[c' m'] q]; simpl; intros rho H; try discriminate; auto.
+  apply andb_prop in H. destruct H as [H H3]. apply andb_prop in H. destruct H as [H1 H2].
+  apply Z.eqb_eq in H1. apply S in H2. subst. unfold poly_eval in *. simpl. rewrite (IH q rho H3). reflexivity.
+Qed.
+
+(* the expected polynomials are the model's row-major index, for every extent and every in-range subscript *)
+Lemma row_major_is_flat_index : forall (rho : string -> Z),
+  let d := fun s => rho s in
+  let inr := fun j e => ((0 <=? rho j) && (rho j <? rho e))%Z%bool in
+  (inr "j0" "d0" = true -> flat_index [d "d0"] [d "j0"] 0%Z = Some (poly_eval rho (expected_index 1))) /\
+  (inr "j0" "d0" = true -> inr "j1" "d1" = true ->
+     flat_index [d "d0"; d "d1"] [d "j0"; d "j1"] 0%Z = Some (poly_eval rho (expected_index 2))) /\
+  (inr "j0" "d0" = true -> inr "j1" "d1" = true -> inr "j2" "d2" = true ->
+     flat_index [d "d0"; d "d1"; d "d2"] [d "j0"; d "j1"; d "j2"] 0%Z = Some (poly_eval rho (expected_index 3))) /\
+  (inr "j0" "d0" = true -> inr "j1" "d1" = true -> inr "j2" "d2" = true -> inr "j3" "d3" = true ->
+     flat_index [d "d0"; d "d1"; d "d2"; d "d3"] [d "j0"; d "j1"; d "j2"; d "j3"] 0%Z = Some (poly_eval rho (expected_index 4))).
+Proof.
+  intros rho d inr. unfold d, inr. repeat split; intros; cbn [flat_index];
+    repeat match goal with H : _ = true |- _ => rewrite H; clear H end;
+    unfold poly_eval, expected_index; cbn [fold_right fst snd]; f_equal; ring.
+Qed.
